@@ -506,7 +506,38 @@ def _r4_dates(run, p):
     r = p.func('falcon.util.misc.http_date_to_dt')
     run.use(w)
     run.use(r)
+    # the response API's contract is "naive datetimes are UTC": nothing in the
+    # writer (or reader) may go through the process-local time zone.  Frozen
+    # table of local-time primitives: datetime.timestamp() and astimezone()
+    # without tz interpret a naive value as LOCAL time; time.mktime/localtime,
+    # datetime.fromtimestamp(x) (no tz) and time.strftime do the same.
+    for fn in (w, r):
+        for c in walk_self(fn.node):
+            if not isinstance(c, ast.Call):
+                continue
+            name = None
+            if isinstance(c.func, ast.Attribute) and c.func.attr == 'timestamp' and not c.args:
+                name = '.timestamp()'
+            elif isinstance(c.func, ast.Attribute) and c.func.attr == 'astimezone' and not c.args and not c.keywords:
+                name = '.astimezone() without a zone'
+            elif isinstance(c.func, ast.Attribute) and c.func.attr == 'fromtimestamp' and len(c.args) < 2 and not any(k.arg == 'tz' for k in c.keywords):
+                name = 'fromtimestamp() without tz'
+            else:
+                q = p.resolve_callable(fn, c.func)
+                if isinstance(q, str) and q in ('time.mktime', 'time.localtime', 'time.strftime', 'time.ctime'):
+                    name = q
+            if name:
+                run.fail('%s converts through the process-local time zone (%s): a naive (UTC) datetime is shifted by the local UTC offset, '
+                         'so a date written by the response API does not read back to the same value' % (fn.name, name), fn, c,
+                         runtime_witness='TZ=Europe/Berlin: resp.last_modified = datetime(2024,1,1,12,0) is emitted as 11:00:00 GMT; '
+                                         'revalidating with the server\'s own Last-Modified gives 200 instead of 304')
     wc = _calls_named(w, 'strftime', p)
+    if not wc:
+        # email.utils.formatdate(<ts>, usegmt=True) writes the same IMF-fixdate
+        fd = [c for c in walk_self(w.node) if isinstance(c, ast.Call) and isinstance(p.resolve_callable(w, c.func), str)
+              and p.resolve_callable(w, c.func).endswith('utils.formatdate')]
+        if fd and run.rule_stats[run.current_rule]['violations']:
+            return
     if len(wc) != 1 or not wc[0].args:
         raise AnchorError('dt_to_http: expected exactly one strftime(<format>) call')
     wfmt = _fold_str(p, w, wc[0].args[-1], 'strftime format')
